@@ -610,7 +610,7 @@ fn sweep<'a, B: SddBuilder<'a>>(b: &'a B, cfg: &SCfg, ctx: &Ctx) -> Report {
                     let r = s.issue(op.clone());
                     count += 1;
                     // warm-vs-cold differential on a rule-defined slice
-                    if cfg.cold_stride > 0 && count % cfg.cold_stride as u64 == 0 && !cfg.semantic {
+                    if cfg.cold_stride > 0 && count % cfg.cold_stride as u64 == 0 && !cfg.semantic && cfg.compress {
                         if let Some(r) = r {
                             let warm = sdd_canon(r);
                             s.rep.evaluations += 1;
@@ -674,7 +674,7 @@ fn sweep<'a, B: SddBuilder<'a>>(b: &'a B, cfg: &SCfg, ctx: &Ctx) -> Report {
                     let op = SOp::Ite(i as TT, j as TT, k as TT);
                     let r = s.issue(op.clone());
                     count += 1;
-                    if cfg.cold_stride > 0 && count % (cfg.cold_stride as u64 * 4) == 0 {
+                    if cfg.cold_stride > 0 && cfg.compress && count % (cfg.cold_stride as u64 * 4) == 0 {
                         if let Some(r) = r {
                             let warm = sdd_canon(r);
                             s.rep.add_extra("cold_builder_comparisons", 1);
@@ -713,7 +713,10 @@ fn sweep<'a, B: SddBuilder<'a>>(b: &'a B, cfg: &SCfg, ctx: &Ctx) -> Report {
 }
 
 pub fn run_cfg(cfg: &SCfg, ctx: &Ctx) -> Report {
-    with_sdd_builder!(cfg, |b| sweep(&b, cfg, ctx))
+    let t0 = std::time::Instant::now();
+    let mut r = with_sdd_builder!(cfg, |b| sweep(&b, cfg, ctx));
+    r.add_extra(&format!("busy_ms_n{}_{}", cfg.n, if cfg.pool == 1 { "pool" } else if cfg.pair_stride > 0 { "all_strided" } else { "all" }), t0.elapsed().as_millis() as u64);
+    r
 }
 
 pub fn configs(ctx: &Ctx, semantic: bool, hash: bool) -> Vec<SCfg> {
@@ -758,10 +761,10 @@ pub fn configs(ctx: &Ctx, semantic: bool, hash: bool) -> Vec<SCfg> {
         }
         for (i, vt) in v5.into_iter().enumerate() {
             for &compress in modes.iter() {
-                if !compress && !semantic && i % 2 != 0 {
+                if !compress && !semantic && (i % 4 != 0 || hash) {
                     continue;
                 }
-                out.push(SCfg { n: 5, vtree: vt.clone(), compress, issue: i + ctx.seed as usize, ite_pool: 6, pool: 1, pair_stride: 13, ..base.clone() });
+                out.push(SCfg { n: 5, vtree: vt.clone(), compress, issue: i + ctx.seed as usize, ite_pool: 6, pool: 1, pair_stride: 31, ..base.clone() });
             }
         }
     }
@@ -781,7 +784,7 @@ pub fn configs(ctx: &Ctx, semantic: bool, hash: bool) -> Vec<SCfg> {
     let v4 = all_vtrees(4);
     if quick {
         if !hash {
-            for (i, vt) in v4.into_iter().enumerate().filter(|(i, _)| i % 20 == 3) {
+            for (i, vt) in v4.into_iter().enumerate().filter(|(i, _)| i % 40 == 3) {
                 out.push(SCfg { n: 4, vtree: vt, compress: !semantic && i % 40 == 3, issue: i, ite_pool: 8, pair_stride: 4099, ..base.clone() });
             }
         }
@@ -803,11 +806,17 @@ pub fn run_all_h(ctx: &Ctx, semantic: bool, hash: bool) -> Report {
     let mut rep = Report::new(
         "SDD-builder histories on the real code against truth tables: per configuration (vtree x compression on/off x table capacity) all functions of n variables are built in one long-lived builder, every ordered pair (n = 3; a stride slice for n = 4) is combined by and/or/xor/iff, every function negated/conditioned/quantified, composed with every function on every variable, ite over a pool; every node reachable from every result is checked for the vtree normal form (compression on); a slice of operations is repeated in a cold builder and compared structurally; distinct = (configuration, operation, arguments)",
     );
-    let cfgs = configs(ctx, semantic, hash);
+    let mut cfgs = configs(ctx, semantic, hash);
+    // longest first: the all-functions n = 4 configurations dominate the critical path
+    cfgs.sort_by_key(|c| std::cmp::Reverse(if c.n == 4 && c.pool == 0 { 3 } else if c.n == 5 { 2 } else if c.n == 4 { 1 } else { 0 }));
     let r = par_run(ctx, &cfgs, |_, c| run_cfg(c, ctx));
     rep.merge(r);
+    if !hash {
+        let w = run_wide(ctx, semantic);
+        rep.merge(w);
+    }
     rep.distinct_nontrivial = rep.transitions;
-    rep.bound("vtrees", json!({"n=3": "all 12, all functions, all ordered pairs", "n=2": "both", "n=4 operand pool (cubes, clauses, functions of <= 2 variables), all ordered pairs": "all 120 vtrees", "n=4 all functions": if ctx.tier == Tier::Quick {"6 of 120 vtrees, pair stride 4099"} else {"all 120, pair stride 257"}, "n=5 operand pool": if ctx.tier == Tier::Quick {"56 vtrees (14 shapes x 4 leaf orders), all unary operations, pair stride 13"} else {"14 shapes x identity/reversed leaf order + every 97th other vtree, all ordered pairs"}}));
+    rep.bound("vtrees", json!({"n=3": "all 12, all functions, all ordered pairs", "n=2": "both", "n=4 operand pool (cubes, clauses, functions of <= 2 variables), all ordered pairs": "all 120 vtrees", "n=4 all functions": if ctx.tier == Tier::Quick {"3 of 120 vtrees, pair stride 4099"} else {"all 120, pair stride 257"}, "n=5 operand pool": if ctx.tier == Tier::Quick {"56 vtrees (14 shapes x 4 leaf orders), all unary operations, pair stride 31"} else {"14 shapes x identity/reversed leaf order + every 97th other vtree, all ordered pairs"}}));
     rep.bound("compression", json!(if semantic {"n/a (semantic builder)"} else {"on and off"}));
     rep.sample(json!({"cfg": {"vtree": "((0 2) 1)", "compress": true, "table_cap": 2}, "ops": ["And(0x96, 0xe8)", "Compose(0xca, 1, 0x3c)", "Ite(0x1b, 0xd8, 0x27)"]}));
     for k in ["apply_case_same_vtree_node", "apply_case_descendant_a", "apply_case_descendant_b", "apply_case_independent"] {
@@ -822,10 +831,165 @@ pub fn filter_for(rep: &mut Report, prop: &str) {
     crate::props::bddsweep::filter_for(rep, prop)
 }
 
+// ---------------------------------------------------------------------------------------------
+// wide label space: the n = 3 regime with sparse, large labels (function and canonicity oracle)
+
+fn relabel(vt: &VT, map: &[usize]) -> VT {
+    match vt {
+        VT::Leaf(i) => VT::Leaf(map[*i]),
+        VT::Node(l, r) => VT::Node(Box::new(relabel(l, map)), Box::new(relabel(r, map))),
+    }
+}
+
+fn wide_sweep<'a, B: SddBuilder<'a>>(b: &'a B, cfg: &SCfg, map: &[usize]) -> Report {
+    let n = 3usize;
+    let mut rep = Report::default();
+    rep.exhaustive = true;
+    let pf = cfg.prop_fn();
+    let case = |what: &str| json!({"kind": "sdd_wide", "cfg": cfg.json(), "map": map, "op": what});
+    let idx = |l: usize| map.iter().position(|&m| m == l);
+    let lbl = |v: usize| VarLabel::new(map[v] as u64);
+    fn sh<'a, B: SddBuilder<'a>>(b: &'a B, t: TT, v: usize, map: &[usize], ite: bool) -> SddPtr<'a> {
+        let n = 3;
+        if t == 0 {
+            return SddPtr::PtrFalse;
+        }
+        if t == tt::mask(n) {
+            return SddPtr::PtrTrue;
+        }
+        if !tt::depends_on(t, v, n) {
+            return sh(b, t, v + 1, map, ite);
+        }
+        let hi = sh(b, tt::cofactor(t, v, true, n), v + 1, map, ite);
+        let lo = sh(b, tt::cofactor(t, v, false, n), v + 1, map, ite);
+        let x = b.var(VarLabel::new(map[v] as u64), true);
+        if ite {
+            b.ite(x, hi, lo)
+        } else {
+            let a = b.and(x, hi);
+            let c = b.and(x.neg(), lo);
+            b.or(a, c)
+        }
+    }
+    let mut canon: HashMap<TT, (u8, usize, bool)> = HashMap::new();
+    let mut f: Vec<SddPtr<'a>> = Vec::with_capacity(256);
+    let check = |r: Result<SddPtr<'a>, String>, want: TT, what: String, rep: &mut Report, canon: &mut HashMap<TT, (u8, usize, bool)>| {
+        rep.transitions += 1;
+        match r {
+            Err(p) => rep.violation(format!("{}:panic", pf), format!("{} [{} labels {:?}] panicked: {}", what, cfg.json(), map, p), case(&what)),
+            Ok(r) => match sdd_tt_mapped(r, n, &idx) {
+                Err(e) => rep.violation(format!("{}:wrong-function", pf), format!("{} [{} labels {:?}]: {}", what, cfg.json(), map, e), case(&what)),
+                Ok(g) => {
+                    if g != want {
+                        rep.violation(format!("{}:wrong-function", pf), format!("{} [{} labels {:?}] returned the function {:#x}, the definition gives {:#x}", what, cfg.json(), map, g, want), case(&what));
+                    } else if cfg.compress && !cfg.semantic {
+                        let id = sdd_id(r);
+                        match canon.get(&g) {
+                            Some(&old) if old != id => rep.violation("C04:two-pointers-one-function", format!("{} [{} labels {:?}] returned a second, different pointer for the function {:#x}", what, cfg.json(), map, g), case(&what)),
+                            Some(_) => (),
+                            None => {
+                                canon.insert(g, id);
+                            }
+                        }
+                    }
+                }
+            },
+        }
+    };
+    for t in 0..256u64 {
+        let r = guarded(|| sh(b, t, 0, map, !cfg.semantic));
+        f.push(r.clone().unwrap_or(SddPtr::PtrFalse));
+        check(r, t, format!("building {:#x}", t), &mut rep, &mut canon);
+    }
+    for i in 0..256usize {
+        for j in 0..256usize {
+            let (x, y) = (i as TT, j as TT);
+            check(guarded(|| b.and(f[i], f[j])), x & y, format!("And({:#x}, {:#x})", x, y), &mut rep, &mut canon);
+            check(guarded(|| b.or(f[i], f[j])), x | y, format!("Or({:#x}, {:#x})", x, y), &mut rep, &mut canon);
+            if !cfg.semantic {
+                check(guarded(|| b.xor(f[i], f[j])), x ^ y, format!("Xor({:#x}, {:#x})", x, y), &mut rep, &mut canon);
+                check(guarded(|| b.iff(f[i], f[j])), tt::iff(x, y, n), format!("Iff({:#x}, {:#x})", x, y), &mut rep, &mut canon);
+            }
+        }
+        if rep.n_violations > 32 {
+            return rep;
+        }
+    }
+    for i in 0..256usize {
+        let x = i as TT;
+        check(guarded(|| b.negate(f[i])), tt::not(x, n), format!("Neg({:#x})", x), &mut rep, &mut canon);
+        for v in 0..n {
+            check(guarded(|| b.condition(f[i], lbl(v), true)), tt::cofactor(x, v, true, n), format!("Cond({:#x}, {}, true)", x, v), &mut rep, &mut canon);
+            check(guarded(|| b.condition(f[i], lbl(v), false)), tt::cofactor(x, v, false, n), format!("Cond({:#x}, {}, false)", x, v), &mut rep, &mut canon);
+            check(guarded(|| b.exists(f[i], lbl(v))), tt::exists(x, v, n), format!("Exists({:#x}, {})", x, v), &mut rep, &mut canon);
+            if !cfg.semantic {
+                for j in (0..256usize).step_by(5) {
+                    check(guarded(|| b.compose(f[i], lbl(v), f[j])), tt::compose_def(x, v, j as TT, n), format!("Compose({:#x}, {}, {:#x})", x, v, j), &mut rep, &mut canon);
+                }
+            }
+        }
+    }
+    rep.states = canon.len() as u64;
+    rep.traces = 1;
+    rep.evaluations += rep.transitions;
+    rep.add_extra("configurations", 1);
+    rep
+}
+
+const WIDE_MAPS: [[usize; 3]; 4] = [[0, 64, 1], [63, 64, 127], [5, 69, 133], [128, 0, 64]];
+
+pub fn run_wide_cfg(cfg: &SCfg, map: &[usize]) -> Report {
+    let t0 = std::time::Instant::now();
+    let mut r = with_sdd_builder!(cfg, |b| wide_sweep(&b, cfg, map));
+    r.add_extra("busy_ms_wide", t0.elapsed().as_millis() as u64);
+    r
+}
+
+/// all 12 vtrees over the three mapped labels x compression on/off (or the semantic builder)
+pub fn run_wide(ctx: &Ctx, semantic: bool) -> Report {
+    let maps: Vec<Vec<usize>> = WIDE_MAPS.iter().take(ctx.tier.pick(2, 4)).map(|m| m.to_vec()).collect();
+    let mut items: Vec<(SCfg, Vec<usize>)> = Vec::new();
+    for m in maps.iter() {
+        for (i, vt) in all_vtrees(3).into_iter().enumerate() {
+            for &compress in (if semantic { vec![false] } else { vec![true, false] }).iter() {
+                items.push((SCfg { n: 3, vtree: relabel(&vt, m), compress, semantic, table_cap: 2, issue: i, ite_pool: 0, pair_stride: 0, cold_stride: 0, pool: 0, hash: false }, m.clone()));
+            }
+        }
+    }
+    let mut r = par_run(ctx, &items, |_, (c, m)| run_wide_cfg(c, m));
+    r.bound("wide_label_space", json!({"variables": 3, "label_maps": maps, "vtrees": "all 12 over the mapped labels", "operations": "all ordered pairs x and/or/xor/iff, all unary operations, compose with every 5th function"}));
+    r.add_extra("wide_label_operations", r.transitions);
+    r
+}
+
+/// the configurations that carry warm-vs-cold comparisons (C16): n = 2, 3 as in the full sweep
+/// plus every 8th n = 4 operand-pool configuration with a cold stride
+pub fn run_cold_only(ctx: &Ctx) -> Report {
+    let mut rep = Report::new("");
+    let mut cfgs: Vec<SCfg> = configs(ctx, false, false).into_iter().filter(|c| c.compress && (c.cold_stride > 0 || (c.n == 4 && c.pool == 1 && c.issue % 8 == (ctx.seed as usize) % 8))).collect();
+    for c in cfgs.iter_mut() {
+        if c.cold_stride == 0 {
+            c.cold_stride = ctx.tier.pick(499, 97);
+        }
+    }
+    cfgs.sort_by_key(|c| std::cmp::Reverse(c.n));
+    let r = par_run(ctx, &cfgs, |_, c| run_cfg(c, ctx));
+    rep.merge(r);
+    rep.bound("sdd_warm_vs_cold", json!({"configurations": cfgs.len(), "n=3": "all vtrees, compression on (without compression diagrams are not canonical and their structure may depend on allocation addresses; only their function is promised, which C03 checks)", "n=4": "every 8th operand-pool configuration"}));
+    rep
+}
+
 pub fn replay_for(ctx: &Ctx, prop: &str, case: &Value) -> Report {
     let mut rep = Report::default();
     if let Some(cfg) = SCfg::from_json(&case["cfg"]) {
-        rep.merge(run_cfg(&cfg, ctx));
+        if case["kind"].as_str() == Some("sdd_wide") {
+            let m: Vec<usize> = case["map"].as_array().map(|a| a.iter().filter_map(|x| x.as_u64()).map(|x| x as usize).collect()).unwrap_or_default();
+            if m.len() == 3 {
+                rep.merge(run_wide_cfg(&cfg, &m));
+            }
+        } else {
+            rep.merge(run_cfg(&cfg, ctx));
+        }
     }
     filter_for(&mut rep, prop);
     rep
